@@ -49,6 +49,14 @@ CLAIMED = {
    note=TB + "NTLM/Negotiate and multistage credentials are not modelled; net/http and TLS are real but their fidelity is the harness's; 401 sequences are finite by construction (aside A2).",
    technique="Lean 4 proof (invariant over the emitted-request trace by induction on fuel) + regenerated-constant obligations + trace correspondence vs lfsapi.Client on real listeners",
    ref="§5 C10, Appendix K"),
+ "C02": dict(
+   text="Lean theorems over the executable model of the basic HTTP download adapter for ALL finite server scripts, .part states, sizes and retry sequences: success => the final file hashes to the oid, "
+        "failure => the final path is unchanged, the hashed bytes are the file's bytes, a retry sequence keeps the final path intact; every adapter attempt of the campaign (real adapter in process, scripted "
+        "storage server incl. cut connections, malformed/overflowing Content-Range, stale .part files) is compared with one model call (outcome class, .part hash, final hash); the Go oracle re-hashes the final "
+        "file after every attempt.",
+   note=TB + "Theorems cover the basic adapter; the ssh and custom/standalone adapters are not yet in the model (their verify-then-rename shape was read, DESIGN §5/C02). HTTP stack and TCP cuts are real; their fidelity is the harness's.",
+   technique="Lean 4 proof (case analysis over the download state machine with file and hasher state separate) + per-attempt differential correspondence vs the real adapter",
+   ref="§5 C02, Appendix J"),
 }
 PENDING_REASON = "check not built yet in this session (build in progress, see DESIGN.md §10); not claimed until its theorems and correspondence run"
 ALL = ["C%02d" % i for i in range(1, 21)]
